@@ -92,6 +92,23 @@ class World:
         self.emit({"op": "new_doc", "as": h}, {})
         return h
 
+    def new_doc_from(self, recs, bundle=False):
+        """ProvDocument(records=[...]) / ProvBundle(records=[...]) built from existing record objects"""
+        op = {"op": "new_from", "recs": list(recs), "bundle": bundle}
+        try:
+            objs = [self.recs[r] for r in recs]
+            d = ProvBundle(records=objs) if bundle else ProvDocument(records=objs)
+            err = None
+        except Exception as e:  # noqa
+            d = None
+            err = e
+        h = None
+        if d is not None:
+            h = self.bind_cont(d)
+            op["as"] = h
+        self.emit(op, {"err": err_name(err)})
+        return h, err
+
     def add_ns(self, c, p, u):
         n = self.conts[c].add_namespace(p, u)
         self.emit({"op": "add_ns", "c": c, "p": p, "u": u}, {"p": n.prefix, "u": n.uri})
